@@ -40,7 +40,7 @@ func worldC08(w *World) {
 		}
 		nf := t.Range(1, maxFail, "failures")
 		for i := 0; i < nf; i++ {
-			k := []string{"5xx", "garbled", "truncated", "404", "refused", "hang"}[t.Pick("failkind", 6, 3, 2, 2, 2, 1)]
+			k := []string{"5xx", "garbled", "truncated", "404", "refused", "hang", "dropped-fin", "dropped-rst", "retry-after"}[t.Pick("failkind", 6, 3, 2, 2, 2, 1, 2, 2, 3)]
 			if k == "hang" && i > 3 {
 				k = "5xx" // keep simulated time per run bounded (each hang costs the 60 s client timeout)
 			}
@@ -85,6 +85,10 @@ func worldC08(w *World) {
 		case "404":
 			w.K.Count("fault.list_404")
 			return 404, []byte("nope")
+		case "retry-after":
+			// (the header is added by the connection-level wrapper below)
+			w.K.Count("fault.list_503_retry_after")
+			return []int{503, 429}[n%2], []byte("slow down")
 		case "garbled":
 			w.K.Count("fault.list_garbled_json")
 			return 200, []byte(`["abc", {nope`)
@@ -100,12 +104,54 @@ func worldC08(w *World) {
 		if err != nil {
 			panic(err)
 		}
+		var lastDropAt time.Duration = -1
+		swallowed := 0
 		srv := &http.Server{Handler: http.HandlerFunc(func(rw http.ResponseWriter, r *http.Request) {
 			fp.mu.Lock()
 			n := len(fp.ListCalls)
+			// net/http's transport re-sends an idempotent request at once when a reused
+			// connection is dropped before any answer - again and again while it finds
+			// idle kept-alive connections (there are at most a handful here). Those
+			// re-sends belong to the same failed call of the agent and are dropped too.
+			if r.Header.Get("X-Inverting-Proxy-Request-ID") == "" && lastDropAt >= 0 && w.K.Now()-lastDropAt < 200*time.Microsecond && swallowed < 8 {
+				swallowed++
+				fp.ListCalls[n-1].Done = w.K.Now()
+				fp.mu.Unlock()
+				w.K.Count("fault.list_connection_dropped_again_on_transport_resend")
+				if hj, ok := rw.(http.Hijacker); ok {
+					if c, _, err := hj.Hijack(); err == nil {
+						c.(*sim.Conn).Abort()
+					}
+				}
+				return
+			}
 			fp.mu.Unlock()
 			if r.Header.Get("X-Inverting-Proxy-Request-ID") == "" && n < len(script) {
 				switch script[n].kind {
+				case "retry-after":
+					rw.Header().Set("Retry-After", []string{"0", "5", "Thu, 01 Jan 2015 00:00:00 GMT", "120"}[n%4])
+				case "dropped-fin", "dropped-rst":
+					// the request is read, then the connection is closed or reset without any answer
+					fp.mu.Lock()
+					fp.ListCalls = append(fp.ListCalls, ListCall{At: w.K.Now(), Seq: w.K.Seq()})
+					fp.mu.Unlock()
+					w.K.Count("fault.list_connection_dropped")
+					if hj, ok := rw.(http.Hijacker); ok {
+						if c, _, err := hj.Hijack(); err == nil {
+							fp.mu.Lock()
+							fp.ListCalls[n].Done = w.K.Now()
+							fp.ListCalls[n].Status = -3
+							lastDropAt = w.K.Now()
+							swallowed = 0
+							fp.mu.Unlock()
+							if script[n].kind == "dropped-rst" {
+								c.(*sim.Conn).Abort()
+							} else {
+								c.Close()
+							}
+						}
+					}
+					return
 				case "truncated":
 					fp.mu.Lock()
 					fp.ListCalls = append(fp.ListCalls, ListCall{At: w.K.Now(), Seq: w.K.Seq()})
